@@ -448,3 +448,35 @@ def _symgrid(U):
         if bad:
             ctx().ghost["bad"] = bad[:3]
     U.run(body, check_feasible=False)
+
+
+@unit("C09", "generators given as product strings: 'A*B*C' is the composition A . B . C in the written order", expect_min=2, scope="shape:1-4 factors, non-commuting stub operations")
+def _product_strings(U):
+    from collections.abc import Iterable
+
+    class Op:
+        def __init__(self, word):
+            self.word = word
+
+        def __mul__(self, o):
+            return Op(self.word + o.word)
+    ident = Op("")
+    prod = U.fn(F, "product", globs=dict(Iterable=Iterable, Identity=ident), model=False)
+    table = {n: Op("<" + n + ">") for n in ("C4z", "C2x", "Mz", "TimeReversal")}
+
+    def from_string(x):
+        return table[x]
+    fsp = U.fn(F, "from_string_prod", globs=dict(product=prod, from_string=from_string), model=False)
+
+    def body():
+        ok = all(prod([table[n] for n in names]).word == "".join("<" + n + ">" for n in names)
+                 for names in (["C4z"], ["C4z", "C2x"], ["C2x", "C4z"], ["Mz", "C4z", "C2x"], ["TimeReversal", "C2x", "Mz", "C4z"]))
+        U.ensure("product([A, B, C]) = A * B * C (left to right), a single factor is itself", ok)
+        ok2 = fsp("C4z*C2x").word == "<C4z><C2x>" and fsp("C2x*C4z").word == "<C2x><C4z>" and fsp("Mz").word == "<Mz>" and fsp("TimeReversal*C4z*Mz").word == "<TimeReversal><C4z><Mz>"
+        try:
+            fsp("C4z*Q9")
+            ok2 = False
+        except ValueError:
+            pass
+        U.ensure("from_string_prod('A*B') = A * B with the factors looked up by name in the written order; an unknown factor is refused", ok2)
+    U.run(body, check_feasible=False)
